@@ -218,7 +218,7 @@ fn synth_case(case: u64, case_seed: u64, k: u64) {
     });
     let mut o = json!({"kind": "synth", "case": case, "case_seed": case_seed.to_string(), "runs_requested": k, "spec": spec,
                        "fixture": format!("synth_{case_seed}"), "result": result_json(&res), "load_order": order.into_inner(),
-                       "ambiguous_names": ambiguous_in(&cap)});
+                       "ambiguous_names": ambiguous_in(&cap), "serde_expected": Value::Object(vhc::synth::serde_expected(&spec))});
     if let Some(c) = &cap {
         o["items"] = serde_json::to_value(&c.items).unwrap();
         o["edges"] = serde_json::to_value(&c.edges).unwrap();
